@@ -9,6 +9,7 @@ import "verif/engine"
 // reporting each would crowd out any OTHER violation. Once a defect is fixed nothing is demoted any more
 // (a leaf that passes is a leaf that passes), so no coverage is lost.
 const (
+	classNilCoeff      = "nil-coefficient"       // single polynomial with a nil (absent) coefficient: nil dereference in the coefficient getters
 	classDegree0       = "degree-0"              // constant polynomial: panic (negative shift amount)
 	classLazy          = "lazy-power-basis"      // FIXED in /repo ed879d8 (MulThenAdd resize): lazy power bases are judged like everything else; the small scenarios stay as a regression
 	classMixedDeclared = "mixed-declared-parity" // vector whose polynomials declare different parities: PolynomialVector.IsEven/IsOdd AND the flags, constant and terms dropped
